@@ -147,7 +147,7 @@ func run(env *simrt.Env, sci interface{}) {
 	// "eventually": the filter is running; give it far more simulated time than any
 	// configured delay (its idle timer period is a minute)
 	env.Join(hs...)
-	env.Sleep(10 * time.Minute)
+	env.Idle(10 * time.Minute)
 	if env.Failed() {
 		return
 	}
@@ -308,7 +308,7 @@ func runRouter(env *simrt.Env, sc *scenario) {
 		}))
 	}
 	env.Join(hs...)
-	env.Sleep(10 * time.Minute)
+	env.Idle(10 * time.Minute)
 	if env.Failed() {
 		return
 	}
